@@ -103,7 +103,10 @@ theorem cons_runActs (p : Plan) (acts : List Act) {s : S} (h : Cons s)
       | acquire =>
         simp only [wellBehavedFrom, Bool.and_eq_true, Bool.not_eq_true'] at hw
         have c1 := cons_acquire h hw.1 hs'
-        simp only []
+        have h0 : s.held s.cur = 0 := by
+          have := h.1 s.cur
+          simpa [hw.1] using this
+        simp only [h0, Nat.lt_irrefl, decide_false, Bool.and_false, Bool.false_eq_true, if_false]
         apply ih c1
         simpa [acquireLock] using hw.2
       | release =>
